@@ -64,6 +64,7 @@ package webtransport
 //@   ensures [C15.sticky]  old(c.readErr) != nil ==> err == old(c.readErr) && c.readErr == old(c.readErr) && r == nil
 //@   ensures [C15.stored]  err != nil ==> c.readErr == err
 //@   ensures [C15.kinds]   err == nil ==> (messageType == TextMessage || messageType == BinaryMessage) && r != nil
+//@   ensures [C15.rdrkind] err == nil ==> typeis(r, *messageReader)
 //@   ensures [C15.limit2,C10.wt2]  err == nil ==> (c.readLimit <= 0 || c.readLength <= c.readLimit)
 //@   ensures [C15.rem2]    c.readRemaining >= 0
 //@   ensures [C15.rdr]     c.reader == nil || typeis(c.reader, *messageReader)
